@@ -40,6 +40,8 @@ pub enum Op {
     Utimens,
     Fsync,
     CopyRange,
+    /// a directory is opened for listing (`opendir`): a read-side fault point
+    OpenDir,
 }
 
 impl Op {
@@ -61,11 +63,12 @@ impl Op {
             Op::Utimens => "utimens",
             Op::Fsync => "fsync",
             Op::CopyRange => "copy_range",
+            Op::OpenDir => "opendir",
         }
     }
     /// Calls that can change the file system (fault points of the `Mut` class).
     pub fn is_mut(self) -> bool {
-        !matches!(self, Op::OpenR | Op::Read)
+        !matches!(self, Op::OpenR | Op::Read | Op::OpenDir)
     }
 }
 
@@ -487,6 +490,8 @@ unsafe fn real_renameat2(
 
 type ReaddirFn = unsafe extern "C" fn(*mut libc::DIR) -> *mut libc::dirent64;
 type ClosedirFn = unsafe extern "C" fn(*mut libc::DIR) -> c_int;
+type OpendirFn = unsafe extern "C" fn(*const c_char) -> *mut libc::DIR;
+static REAL_OPENDIR: AtomicUsize = AtomicUsize::new(0);
 static REAL_READDIR64: AtomicUsize = AtomicUsize::new(0);
 static REAL_CLOSEDIR: AtomicUsize = AtomicUsize::new(0);
 
@@ -504,6 +509,10 @@ unsafe fn next_sym(cache: &AtomicUsize, name: &'static [u8]) -> usize {
 unsafe fn real_readdir64(d: *mut libc::DIR) -> *mut libc::dirent64 {
     let f: ReaddirFn = std::mem::transmute(next_sym(&REAL_READDIR64, b"readdir64\0"));
     f(d)
+}
+unsafe fn real_opendir(p: *const c_char) -> *mut libc::DIR {
+    let f: OpendirFn = std::mem::transmute(next_sym(&REAL_OPENDIR, b"opendir\0"));
+    f(p)
 }
 unsafe fn real_closedir(d: *mut libc::DIR) -> c_int {
     let f: ClosedirFn = std::mem::transmute(next_sym(&REAL_CLOSEDIR, b"closedir\0"));
@@ -1477,6 +1486,45 @@ pub unsafe extern "C" fn isatty(fd: c_int) -> c_int {
 }
 
 // ----- directory enumeration ---------------------------------------------------
+
+/// Listing a directory can fail like any other read (EACCES on a directory that lost its
+/// permissions, EIO): the fault point is the `opendir` call.
+#[no_mangle]
+pub unsafe extern "C" fn opendir(name: *const c_char) -> *mut libc::DIR {
+    match cur() {
+        Some(c) => {
+            let _b = Busy::new(c);
+            c.count("opendir");
+            let rp = resolve(libc::AT_FDCWD, name, true);
+            let special = rp.starts_with("/proc/") || rp.starts_with("/sys/") || (rp.starts_with("/dev/") && !rp.starts_with("/dev/shm/"));
+            if special || c.frozen {
+                return real_opendir(name);
+            }
+            c.cur_existed = true;
+            let (m, r, fault) = c.fault_for(Op::OpenDir, &rp);
+            match fault {
+                Some(FaultKind::Err(e)) => {
+                    c.push(Op::OpenDir, m, r, rp, String::new(), 0, 0, -1, e, Some(&FaultKind::Err(e)), true, false);
+                    set_errno(e);
+                    std::ptr::null_mut()
+                }
+                Some(FaultKind::CrashBefore) | Some(FaultKind::CrashAfter) => {
+                    c.frozen = true;
+                    c.push(Op::OpenDir, m, r, rp, String::new(), 0, 0, 0, 0, Some(&FaultKind::CrashBefore), true, true);
+                    real_opendir(name)
+                }
+                _ => {
+                    let d = real_opendir(name);
+                    let e = get_errno();
+                    c.push(Op::OpenDir, m, r, rp, String::new(), 0, 0, if d.is_null() { -1 } else { 0 }, if d.is_null() { e } else { 0 }, None, true, false);
+                    set_errno(e);
+                    d
+                }
+            }
+        }
+        None => real_opendir(name),
+    }
+}
 
 #[no_mangle]
 pub unsafe extern "C" fn readdir64(dirp: *mut libc::DIR) -> *mut libc::dirent64 {
